@@ -22,6 +22,26 @@ from ..translate import Untranslatable
 TCU = "fairlearn/postprocessing/_tradeoff_curve_utilities.py"
 TOP = "fairlearn/postprocessing/_threshold_optimizer.py"
 BASE = ["true_positives", "false_positives", "true_negatives", "false_negatives"]
+# the local variables, in order of first binding, of the functions of _tradeoff_curve_utilities.py as the lifters were
+# written against them (normalize.canon_tree: new temporaries are inlined, renamed locals get these names back)
+PINNED_TCU = {
+    "_tradeoff_curve": ["points_sorted", "points_selected"],
+    "_filter_points_to_get_convex_hull": ["selected", "r2", "r1", "r0"],
+    "_interpolate_curve": ["x_values", "y_values", "content_values", "content_col_0", "content_col_1",
+                           "interpolation_indices", "x_distance_from_next_data_point", "x_distance_between_data_points",
+                           "p0", "p1", "y"],
+    "_get_interpolation_indices": ["indices"],
+    "_calculate_tradeoff_points": ["scores", "labels", "n", "n_positive", "n_negative", "i", "count", "x_list", "y_list",
+                                   "operation_list", "threshold", "actual_counts", "flipped_counts", "operations",
+                                   "operation_string", "counts", "x", "y", "operation"],
+    "_get_scores_labels_and_counts": ["data_sorted", "scores", "labels", "n", "n_positive", "n_negative"],
+    "_get_counts": ["n", "n_positive", "n_negative"],
+}
+TCU_PURE_FUNCS = ("METRIC_DICT", "ThresholdOperation", "_extend_confusion_matrix")
+
+
+def parse_tcu(repo):
+    return normalize.canon_tree(normalize.parse(translate._read(repo, TCU)), PINNED_TCU, extra_funcs=TCU_PURE_FUNCS)
 DERIVED = ["predicted_positives", "predicted_negatives", "positives", "negatives", "n"]
 
 
@@ -229,7 +249,7 @@ def _cm(fields, indent="  "):
 
 @translate.lifter
 def lift_threshold(repo):
-    t1 = normalize.parse(translate._read(repo, TCU))
+    t1 = parse_tcu(repo)
     t2 = normalize.parse(translate._read(repo, TOP))
     metrics = _metric_dict(t1)
     derived = _extend(t1)
